@@ -38,6 +38,7 @@ def build():
 requires old(self).0 < usize::MAX,
 ensures r.0 == old(self).0, final(self).0 == old(self).0 + 1,''')),
     ])
+    s.impl('Default for SymbolId', [('default', dict(ret='r', props=['C19'], spec='ensures r.0 == 0,'))])
     s.impl('Symbol', [
         ('new', dict(ret='r', props=['C19'], trusted=True, note='generic T: ToString; `name.to_string()`',
                      spec='ensures r.name@ == to_string_spec(name), r.typ == *typ,')),
